@@ -23,6 +23,7 @@ import Relic.Driver.C19
 import Relic.Driver.C17
 import Relic.Driver.C14
 import Relic.Driver.C11
+import Relic.Driver.XmlSig
 open Relic
 
 def dispatch (line : String) : String :=
@@ -55,6 +56,7 @@ def dispatch (line : String) : String :=
   | "CSBLOB" :: rest => Relic.Driver.C11.handleCs rest
   | "XAPSIG" :: rest => Relic.Driver.C11.handleXap rest
   | "BINLOAD" :: rest => Relic.Driver.C11.handleBin rest
+  | "XSIG" :: rest => Relic.Driver.XmlSig.handle rest
   | _ => "bad-op"
 
 partial def loop (h : IO.FS.Stream) (out : IO.FS.Stream) : IO Unit := do
